@@ -21,7 +21,7 @@ from symtorch.terms import T
 
 TIERS = {
     "quick": dict(timeout_ms=20000, path_bound=6, cvc5=False, ob_wall=240),
-    "thorough": dict(timeout_ms=120000, path_bound=32, cvc5=True, ob_wall=1500, check_wall=2700),
+    "thorough": dict(timeout_ms=90000, path_bound=32, cvc5=True, ob_wall=900, check_wall=1800),
 }
 
 REPLAY_RTOL = 2e-4
